@@ -484,6 +484,81 @@ def analyse_format_block(M, ses, rep):
     return flagged
 
 
+def analyse_field_sites(M, ses, rep, fs="default"):
+    """F: every place that formats the children of a table Field (functions and closures that take a Field and return one) first asks
+    should_format_node(field) and formats nothing when the answer is Skip - also on the range-only visitor (stmt_block)."""
+    flagged = []
+    funcs = ses.mir("lib", fs)
+    n = 0
+    for name, l in sorted(funcs.items()):
+        for f in l:
+            fi = [i for i, (p, t) in enumerate(f.params) if re.search(r"(^|[&: ])Field$", t.strip())]
+            if len(fi) != 1 or not f.ret or "Field" not in f.ret:
+                continue
+            fmt_calls = [s_ for sts in f.blocks.values() for s_ in sts if s_[0] == "call" and canon(s_[2]).split("::")[-1].startswith(("format_", "hang_"))]
+            if not fmt_calls:
+                continue
+            ex = ses.executor("lib", fs, inline=lambda n_, fn: False)
+            ex.max_block_visits = 2
+            T = ex.enums
+            skip = z3.BitVecVal(T.index("FormatNode", "Skip"), 64)
+            rep.fn(f)
+            n += 1
+            mk = lambda g: [RefV(ex.fresh_lazy(t.lstrip("&").replace("mut ", "", 1).strip(), p)) if t.startswith("&") else ex.fresh_lazy(t, p) for p, t in g.params]
+            own_test = any(s_[0] == "call" and canon(s_[2]).split("::")[-1] == "should_format_node" for sts in f.blocks.values() for s_ in sts)
+            if "{closure" in f.name and not own_test:
+                # a closure that receives the field from its parent: the test may sit in the parent, in front of the use of the closure
+                from .props import c02
+                cid = re.search(r"\{closure@[^}]*\}", f.params[0][1]).group(0)
+                parent = [g for g in funcs.get(f.name.rsplit("::{closure", 1)[0], [])]
+                if len(parent) != 1:
+                    raise Inconclusive(f"{f.name}: parent not found")
+                g = parent[0]
+                outs = ex.run(g, mk(g))
+                used = 0
+                for pi, o in enumerate(outs):
+                    if o.kind != "return":
+                        continue
+                    P = c02.Prov(ex, o)
+                    uses = [t for t in o.trace if t[0] == "havoc" and isinstance(t[3], Lazy) and cid in ex.havoc_raw.get(t[3].oid, "")]
+                    if not uses:
+                        continue
+                    used += 1
+                    src = P.of((uses[0][4] if len(uses[0]) > 4 else uses[0][2])[0])
+                    asks = [t for t in o.trace if t[0] == "havoc" and t[1].split("::")[-1] == "should_format_node"
+                            and (P.of((t[4] if len(t) > 4 else t[2])[1]) & src)]
+                    bad = z3.BoolVal(True) if not asks else ex.discr(o.state, asks[0][3]) == skip
+                    oid = f"field-sites/{fs}/{f.name}/parent-path{pi}/used-only-if-not-Skip"
+                    r, m = ses.obligation(oid, list(o.pc), bad, "the closure that formats a field's children is applied only after should_format_node(field) != Skip")
+                    if r == "sat":
+                        flagged.append((oid, f"{f.name} formats the children of a table field and is applied without asking should_format_node(field): an ignored "
+                                             "field is rewritten", "field", {"function": f.name}))
+                if not used:
+                    raise Inconclusive(f"{f.name}: its use in {g.name} was not recognised")
+                continue
+            args = mk(f)
+            field = args[fi[0]].v if isinstance(args[fi[0]], RefV) else args[fi[0]]
+            outs = ex.run(f, args)
+            for pi, o in enumerate(outs):
+                if o.kind != "return":
+                    continue
+                fm = [t for t in o.trace if t[0] == "havoc" and t[1].split("::")[-1].startswith(("format_", "hang_"))]
+                if not fm:
+                    continue
+                asks = [t for t in o.trace if t[0] == "havoc" and t[1].split("::")[-1] == "should_format_node"
+                        and same_obj(deref_val(ex, o.state, (t[4] if len(t) > 4 else t[2])[1]), field)]
+                bad = z3.BoolVal(True) if not asks else ex.discr(o.state, asks[0][3]) == skip
+                oid = f"field-sites/{fs}/{f.name}/path{pi}/children-formatted-only-if-not-Skip"
+                r, m = ses.obligation(oid, list(o.pc), bad, "a field's children are formatted only after should_format_node(field) != Skip")
+                if r == "sat":
+                    flagged.append((oid, f"{f.name} formats the children of a table field without asking should_format_node(field): an ignored field is "
+                                         "rewritten", "field", {"function": f.name}))
+    rep.bounds["field_sites"] = n
+    if n < 2:
+        raise Inconclusive(f"field sites: only {n} functions that format a Field's children found")
+    return flagged
+
+
 def analyse_skip_arms(M, ses, rep):
     """D: format_stmt, format_last_stmt, format_eof: when should_format_node is Skip the node is returned unchanged; for
     NotInRange the statement goes to the block-only visitor (format_stmt_block) and the eof token is returned unchanged."""
